@@ -48,6 +48,9 @@ class Translator:
                 return env[node.id]
             return ("var", node.id)
         if isinstance(node, ast.Attribute):
+            if isinstance(node.value, ast.Attribute) and isinstance(node.value.value, ast.Name) \
+                    and node.value.value.id == "self" and node.value.attr == "user_options":
+                return ("var", "opt_" + node.attr)
             if isinstance(node.value, ast.Name) and node.value.id in self.numpy_names and node.attr == "pi":
                 return ("var", "pi")
             if isinstance(node.value, ast.Name) and node.value.id == "self":
@@ -76,6 +79,8 @@ class Translator:
                     return ("pow", a, int(b[1]))
                 if b[1] == Fraction(1, 2):
                     return ("call", "sqrt", [a])
+                if b[1] == Fraction(3, 2):
+                    return ("bin", "*", a, ("call", "sqrt", [a]))
                 raise Unsupported("exponent %s" % b[1])
             return ("bin", ops[type(node.op)], a, b)
         if isinstance(node, ast.Compare):
@@ -103,7 +108,28 @@ class Translator:
             return ("lam", params, self.expr(node.body, env2))
         if isinstance(node, ast.Call):
             f = node.func
-            args = [self.expr(a, env) for a in node.args]
+            is_pw = isinstance(f, ast.Attribute) and isinstance(f.value, ast.Name) and f.value.id in self.numpy_names \
+                and f.attr == "piecewise"
+            args = [] if is_pw else [self.expr(a, env) for a in node.args]
+            if is_pw:
+                if len(node.args) != 3 or not isinstance(node.args[1], ast.List) or not isinstance(node.args[2], ast.List):
+                    raise Unsupported("piecewise shape")
+                x = self.expr(node.args[0], env)
+                cs = [self.expr(c, env) for c in node.args[1].elts]
+                fs = [self.expr(g, env) for g in node.args[2].elts]
+                if len(fs) not in (len(cs), len(cs) + 1):
+                    raise Unsupported("piecewise arity")
+
+                def app(g):
+                    if g[0] != "lam" or len(g[1]) != 1:
+                        raise Unsupported("piecewise branch is not a one-argument function")
+                    return subst(g[2], {g[1][0]: x})
+
+                # numpy.piecewise: where several conditions hold the LAST one wins; default where none holds
+                out = app(fs[len(cs)]) if len(fs) == len(cs) + 1 else ("num", Fraction(0))
+                for c, g in zip(cs, fs):
+                    out = ("ifexp", c, app(g), out)
+                return out
             if isinstance(f, ast.Attribute) and isinstance(f.value, ast.Name) and f.value.id in self.numpy_names:
                 if f.attr in FUNCS:
                     return ("call", FUNCS[f.attr], args)
@@ -166,7 +192,12 @@ class Translator:
                 paths.append((conds, "raise", None))
                 return paths
             if isinstance(st, ast.Return):
-                paths.append((conds, "return", self.expr(st.value, env) if st.value is not None else ("none",)))
+                try:
+                    paths.append((conds, "return", self.expr(st.value, env) if st.value is not None else ("none",)))
+                except Unsupported as e:
+                    # may be an infeasible path (e.g. a helper only defined under the complementary condition); the caller
+                    # must reject it if the path conditions turn out to be satisfiable
+                    paths.append((conds, "unsupported", str(e)))
                 return paths
             raise Unsupported("statement %s" % type(st).__name__)
         paths.append((conds, "end", env))
@@ -295,6 +326,8 @@ def pr(e, mode):
         return "(if %s then %s else %s)" % (pr(e[1], mode), pr(e[2], mode), pr(e[3], mode))
     if t == "tupleidx":
         return "(%s).%d" % (pr(e[1], mode), e[2] + 1)
+    if t == "rootof":
+        return "root"
     if t == "isnone":
         return "(isNone %s)" % e[1]  # only ever printed into path tables, never into Lean definitions
     raise Unsupported("print " + t)
